@@ -27,6 +27,7 @@ package simstorage
 
 import (
 	"fmt"
+	"sort"
 
 	"0chain.net/chaincore/block"
 	"0chain.net/chaincore/transaction"
@@ -200,8 +201,20 @@ func (w *World) On(h *sim.History) *World {
 	return &c
 }
 
-// Fork starts a new history on the closed setup block and returns the world bound to it.
-func (w *World) Fork() *World { return w.On(w.S.NewHistory(w.SetupBlock)) }
+// Fork starts a new history on the closed setup block and returns the world bound to it. Every wallet the world owns is
+// registered with the new history, so balance snapshots cover providers and their delegate wallets too.
+func (w *World) Fork() *World {
+	f := w.On(w.S.NewHistory(w.SetupBlock))
+	ids := make([]string, 0, len(w.wallets))
+	for id := range w.wallets {
+		ids = append(ids, id)
+	}
+	sort.Strings(ids)
+	for _, id := range ids {
+		f.H.Know(id, w.wallets[id].Name)
+	}
+	return f
+}
 
 // Exec runs a transaction in the current block and turns "rejected" and "failed"
 // into an error carrying the contract's message.
